@@ -509,6 +509,12 @@ def check_c03(model, rep, tier):
         r_schema(model, rep, q, FLOORS[q])
     r_no_hidden_state(model, rep, ["rpms.Rpms", "modules.Modules", "extra_files.ExtraFiles"])
     r_io_chain(model, rep)
+    # "a manifest built through the library's add operations is read back as ... every RPM under its source package with its path,
+    # signing key and category; every module with ... ; every extra file with size and checksums": what add() files is part of it
+    from .builders import r_keys
+    from .regexes import r_nvra_glue
+    r_keys(model, rep)
+    r_nvra_glue(model, rep)
 
 
 # ---------------------------------------------------------------------------------------------------------
